@@ -69,12 +69,51 @@ def family(r):
     return 'y-overlaps-delimiter-of-x'
 
 
+class MatchStub(AbstractValue):
+    """A regex match as far as a candidate looks at it: where it starts and ends, and where its parse group does."""
+
+    def __init__(self, offs):
+        self.offs = offs
+
+    def abs_getattr(self, interp, name):
+        from ..domains import _AbsBound
+        return _AbsBound(self, name)
+
+    def abs_method(self, interp, name, args, kwargs):
+        g = args[0] if args else 0
+        if name in ('start', 'end'):
+            if g == 0:
+                return self.offs.get(name, Unknown('match.' + name))
+            return self.offs.get('parse_' + name, self.offs.get(name, Unknown('match.' + name)))
+        if name == 'span':
+            return (self.abs_method(interp, 'start', args, kwargs), self.abs_method(interp, 'end', args, kwargs))
+        return Unknown('match.' + name)
+
+
+_ctor_ok = {}
+
+
 def mk_token(model, r, who, prec_rank=None, parse_inner=True):
+    """A candidate with symbolic offsets. It is made by ParseToken's own constructor where that works (however the
+    class keeps its offsets); an object with the four classic attributes otherwise."""
     pt = model.cls('span_tokenizer.ParseToken')
     cls = ClsVal(prec_rank, parse_inner, who)
     attrs = {k.split('.')[1]: Sym(k, v) for k, v in r.items() if k.startswith(who + '.')}
-    o = Obj(pt, attrs)
-    o.attrs['cls'] = cls
+    o = None
+    if _ctor_ok.get(id(model), True) and 'start' in attrs and 'end' in attrs:
+        try:
+            it = Interp(model)
+            it.reset_run(Oracle())
+            o = it.construct(pt, [attrs['start'], attrs['end'], MatchStub(attrs), Unknown('string'), cls, Unknown('fallback')], {})
+            if not isinstance(o, Obj):
+                o = None
+        except Exception:
+            o = None
+        if o is None:
+            _ctor_ok[id(model)] = False
+    if o is None:
+        o = Obj(pt, attrs)
+        o.attrs['cls'] = cls
     o.attrs['children'] = []
     o.attrs['_who'] = who
     return o
@@ -91,6 +130,8 @@ class ClsVal(AbstractValue):
             return self.prec
         if name == 'parse_inner':
             return self.parse_inner
+        if name == 'parse_group':
+            return 1
         return Unknown('cls.' + name)
 
 
